@@ -26,6 +26,9 @@ func (x *Run) doCall(fr *Frame, st *State, cc *ssa.CallCommon, site ssa.Instruct
 	if b, ok := cc.Value.(*ssa.Builtin); ok {
 		return x.builtin(fr, st, b, cc, args, site)
 	}
+	if sf := cc.StaticCallee(); sf != nil && strings.HasPrefix(sf.String(), "slices.SortFunc[") && len(args) == 2 && args[1].Clo != nil {
+		return x.modelSortFunc(fr, st, cc, args, site)
+	}
 	fv := x.val(fr, st, cc.Value)
 	return x.callValue(fr, st, fv, cc, args, site)
 }
@@ -272,6 +275,25 @@ func (x *Run) applyHavoc(st *State, ms *ModSet) {
 	for _, a := range sortedKeys(ms.Arrs) {
 		x.havocArr(st, a)
 	}
+	x.flushZeroAxioms(st)
+}
+
+// flushZeroAxioms re-establishes "absent keys hold zero" for map value arrays
+// that were havocked (with whatever the domain array currently is).
+func (x *Run) flushZeroAxioms(st *State) {
+	for _, name := range st.pendingZero {
+		dom := "Md." + name[3:]
+		x.mu.Lock()
+		vs := x.arrSorts[name]
+		zero := x.mapZero[name]
+		x.mu.Unlock()
+		if zero == "" {
+			continue
+		}
+		ks := mapKeySortOfArr(vs)
+		st.assume(fmt.Sprintf("(forall ((m Int) (k %s)) (! (=> (not (select (select %s m) k)) (= (select (select %s m) k) %s)) :pattern ((select (select %s m) k))))", ks, x.arr(st, dom), x.arr(st, name), zero, x.arr(st, name)))
+	}
+	st.pendingZero = nil
 }
 
 // ufApply models a call as an uninterpreted function of its arguments.
@@ -593,3 +615,54 @@ func (x *Run) bindTerm(st *State, v Val) Val {
 }
 
 var _ = token.NoPos
+
+// modelSortFunc: slices.SortFunc(s, cmp) sorts in place. Library contract
+// (trusted): afterwards the slice is a permutation of its old contents, sorted
+// with respect to cmp. Slices are values in this model, so the SSA value naming
+// the slice is re-bound to the sorted slice for the rest of the path.
+func (x *Run) modelSortFunc(fr *Frame, st *State, cc *ssa.CallCommon, args []Val, site ssa.Instruction) []Outcome {
+	s := args[0]
+	es := x.d.slices[s.S]
+	r := x.freshVal(st, "sorted", cc.Args[0].Type())
+	n := x.sliceLen(s)
+	st.assume(eq(x.sliceLen(r), n))
+	k := x.d.fresh("k", SInt) // unique suffix
+	pi := x.d.fun("perm."+k, []Sort{SInt}, SInt)
+	ip := x.d.fun("iperm."+k, []Sort{SInt}, SInt)
+	in := func(v string) string { return fmt.Sprintf("(and (<= 0 %s) (< %s %s))", v, v, n) }
+	st.assume(fmt.Sprintf("(forall ((i Int)) (! (=> %s (and %s (= (%s (%s i)) i) (= (select %s i) (select %s (%s i))))) :pattern ((select %s i))))", in("i"), in(app(pi, "i")), ip, pi, x.sliceArr(r), x.sliceArr(s), pi, x.sliceArr(r)))
+	st.assume(fmt.Sprintf("(forall ((j Int)) (! (=> %s (and %s (= (%s (%s j)) j))) :pattern ((%s j))))", in("j"), in(app(ip, "j")), pi, ip, ip))
+	// sortedness w.r.t. the real comparator closure
+	bi := x.d.fresh("bi", SInt)
+	bj := x.d.fresh("bj", SInt)
+	et := types.Unalias(cc.Args[0].Type()).Underlying().(*types.Slice).Elem()
+	ai := Val{T: sel(x.sliceArr(r), bi), S: es, Ty: et}
+	aj := Val{T: sel(x.sliceArr(r), bj), S: es, Ty: et}
+	f := &Frame{fn: args[1].Clo.Fn, env: map[ssa.Value]Val{}, names: map[string]Val{}, parent: fr, mode: ModePure, cut: map[*ssa.BasicBlock]bool{}, unroll: map[*ssa.BasicBlock]int{}, bound: []string{bi, bj}, depth: fr.depth + 1}
+	sub := st.clone()
+	p0 := len(sub.pc)
+	x.pureDepth++
+	outs := x.runFrame(f, []Val{ai, aj}, args[1].Clo.Bindings, sub)
+	x.pureDepth--
+	term := "0"
+	for i := len(outs) - 1; i >= 0; i-- {
+		var conds []string
+		for _, c := range outs[i].st.pc[p0:] {
+			if pcKind(c) == 'c' {
+				conds = append(conds, pcPlain(c))
+			}
+		}
+		if i == len(outs)-1 {
+			term = outs[i].ret.T
+		} else {
+			term = ite(and(conds...), outs[i].ret.T, term)
+		}
+	}
+	st.assume(fmt.Sprintf("(forall ((%s Int) (%s Int)) (! (=> (and (<= 0 %s) (< %s %s) (< %s %s)) (<= %s 0)) :pattern ((select %s %s) (select %s %s))))", bi, bj, bi, bi, bj, bj, n, term, x.sliceArr(r), bi, x.sliceArr(r), bj))
+	fr.env[cc.Args[0]] = r
+	x.mu.Lock()
+	x.trusted["library-contract:slices.SortFunc (permutation, sorted w.r.t. comparator)"] = true
+	x.mu.Unlock()
+	st.events = append(st.events, Event{Name: "call:slices.SortFunc", Args: args})
+	return single(st, Val{T: "unit", S: SUnit})
+}
